@@ -543,7 +543,7 @@ func runHistory(t *rapid.T, p *pipeline, withOdd bool) {
 			before[k] = p.healthy(w, in)
 		}
 		var op string
-		kind := rapid.IntRange(0, 14).Draw(t, "op")
+		kind := rapid.IntRange(0, 17).Draw(t, "op") // 15-17: KV override edits like 11 (the default case)
 		keys := sortedKeys(w.inst)
 		if kind == 14 {
 			// the local agent starts (or stops) refusing service registrations (ACL change): fabio's
